@@ -138,7 +138,45 @@ def chain_traces(ctx, quick):
     return out
 
 
+COMMIT_KEYS = ('CommitVerifies', 'VerifyCommitQuorum', 'MakeCommit-panic')
+
+
+def voteset_slice(ctx):
+    """The commit a node STORES and a proposer EMBEDS is assembled by VoteSet.MakeCommit: simulated VoteSet.tla behaviours
+    (equivocation, peer majority claims, totals = 0,1,2 mod 3, validator sets built through Update/Add/Remove histories) are
+    replayed on the real types.VoteSet; whenever a majority exists the assembled commit must pass VerifyCommit, and no
+    sub-quorum selection of the recorded precommits may (the two oracles of the C15 driver that concern this property)."""
+    from . import c15
+    engine.build_go(ctx, ['voteset'])
+    quick = ctx.tier == 'quick'
+    traces = []
+    for name, num, depth in ([('1111', 60, 16), ('122', 50, 14), ('112', 50, 14)] if quick else
+                             [('1111', 600, 18), ('122', 400, 16), ('112', 400, 16), ('11111', 300, 18), ('123', 300, 16)]):
+        cfgfile, tcfg = c15.CFGS[name]
+        r, ts = tlc.simulate_traces(c15.SPEC, 'MC_VoteSet.tla', cfgfile, num, depth, ctx.seed, drop_vars=c15.DROP)
+        ctx.add_tlc('VoteSet/c02-sim-' + name, r, exhaustive=False)
+        for k, t in enumerate(ts):
+            t['cfg'] = tcfg
+            t['id'] = 'c02-voteset-%s-%d-%d' % (name, ctx.seed, k)
+            traces.append(t)
+    for k, t in enumerate(traces):
+        t['cfg'] = dict(t['cfg'], Variant=k)
+    rep = engine.run_driver(ctx, 'voteset', traces)
+    rep['failures'] = [f for f in (rep.get('failures') or []) if (f.get('key') or '') in COMMIT_KEYS]
+    engine.collect(ctx, rep, traces, 'voteset')
+    ctx.cov['voteset_slice'] = {'behaviours': rep['traces'], 'steps': rep['steps'], 'counters': rep.get('counters', {})}
+    ctx.log('voteset slice: %d behaviours replayed, assembled commits re-verified' % rep['traces'])
+
+
 def run(ctx, replay=None):
+    if replay is not None and replay.get('engine') == 'voteset':
+        engine.build_go(ctx, ['voteset'])
+        rep = engine.run_driver(ctx, 'voteset', [replay['trace']], timeout=900)
+        rep['failures'] = [f for f in (rep.get('failures') or []) if (f.get('key') or '') in COMMIT_KEYS]
+        engine.collect(ctx, rep, [replay['trace']], 'voteset')
+        ctx.cov['traces_validated_against_impl'] = 1
+        ctx.cov['states'] = ctx.cov['transitions'] = max(1, len(replay['trace']['steps']))
+        return
     if replay is not None:
         engine.build_go(ctx, [DRV])
         rep = engine.run_driver(ctx, DRV, [replay['trace']], timeout=900)
@@ -260,6 +298,7 @@ def run(ctx, replay=None):
     engine.collect(ctx, brep, byz, DRV)
     ctx.log('byz: %d blocks in %d systems, counters %s' % (n_byz_blocks, brep['traces'], brep.get('counters')))
 
+    voteset_slice(ctx)
     ctx.cov['traces_validated_against_impl'] = rep['traces'] + brep['traces'] + crep['traces']
     ctx.cov['evaluations'] = rep['checks'] + brep['checks'] + crep['checks']
     ctx.cov['impl_checks'] = {'mbt': rep['checks'], 'byz': brep['checks'], 'chain': crep['checks']}
@@ -281,4 +320,5 @@ def run(ctx, replay=None):
         'small scope: 2-5 validators, equal and unequal powers with totals == 0, 1 and 2 (mod 3), <= 2 (3) simultaneous malformations from the honest block plus '
         'every combination of slot classes over the whole commit',
         'block time is not part of the property (the code does not check it: TODO in Block.ValidateBasic)',
-        'validator-set changes between heights are covered by C14/C16, here the set is constant']
+        'validator-set changes between heights are covered by C14/C16; here the set is constant per chain, except in the voteset slice '
+        'where the set is also built through Update / Add+Remove histories']
